@@ -40,7 +40,9 @@ let print_zs (l : z list) = print_endline (String.concat " " (List.map string_of
 
 (* handler registry: each ml/handlers/h_*.ml registers the line kinds it understands *)
 let handlers : (string * (string list -> unit)) list ref = ref []
-let register (name : string) (f : string list -> unit) = handlers := (name, f) :: !handlers
+let register (name : string) (f : string list -> unit) =
+  if List.mem_assoc name !handlers then failwith ("handler kind registered twice: " ^ name);
+  handlers := (name, f) :: !handlers
 let print_z1 (x : z) = print_endline (string_of_z x)
 let print_bytes (b : n list) = print_endline (hex_of_bytes b)
 let zb (b : bool) : string = if b then "1" else "0"
